@@ -53,6 +53,8 @@ func runC04(c *Ctx) {
 	hyperLeafConservation(c, "R13")
 	hyperShortcutPersist(c, "R13")
 	hyperInsertSortedDuplicates(c, "R13")
+	c.Rule("R14", "a replica built by state transfer receives every batch it lacks (the transfer filter skips exactly what the follower has)", 2)
+	fsmValidate(c, "R14")
 }
 
 // ---- R2 ---------------------------------------------------------------------
